@@ -5,7 +5,7 @@ Names == {"A", "ABCDEFGH", "ABCDEFGHI", "abcdefghijkl", "MiXed", "prog1"}
 NameSrc == {"nam", "cli", "both", "none"}
 Switches == {<<"bin">>, <<"cas">>, <<"dsk">>, <<"bin", "cas">>, <<"cas", "dsk">>, <<"bin", "dsk">>, <<"bin", "cas", "dsk">>}
 Origins == {-1, 16, 3584, 61440}
-Sizes == {1, 3, 255, 256, 2294, 2295, 2299, 2300, 2304, 2305, 4000}
+Sizes == {1, 3, 255, 256, 2294, 2295, 2299, 2300, 2304, 2305, 4000, 52000}
 Out == SetToSeq({[name |-> n, src |-> s, sw |-> w, org |-> o, size |-> z, endop |-> e] : n \in Names, s \in NameSrc, w \in Switches, o \in Origins, z \in Sizes, e \in BOOLEAN})
 VARIABLE x
 Init == x = 0 /\ ndJsonSerialize(IOEnv.OUT_FILE, Out)
